@@ -230,7 +230,9 @@ func scopes() map[string]*PropScope {
 			if f.Signature.Recv() != nil && accessorNames[f.Name()] {
 				return &FnConfig{Classes: classSet([]string{"frame-ro", "frame-glob"}), ReadOnly: true, NoGlobal: true}
 			}
-			return &FnConfig{Classes: classSet([]string{"frame-in", "frame-glob"}), InputData: true, NoGlobal: true}
+			// "cap": a decoder that re-slices its input beyond len makes the result depend on bytes that are not part
+			// of the input (whatever the caller's buffer holds behind it) - not a function of the bytes any more
+			return &FnConfig{Classes: classSet([]string{"frame-in", "frame-glob", "cap"}), InputData: true, NoGlobal: true}
 		},
 		NotCovered: []string{"actual goroutine interleavings and -race runs: the schedule clause is argued from the read-only frames, not explored", "lazy packets (documented as not shareable)"},
 	})
